@@ -81,6 +81,18 @@ def squeeze_calls(st: ast.AST, var: str, dim) -> List[ast.Call]:
     return out
 
 
+def _is_lt_of(v: ast.AST, name: str) -> bool:
+    if isinstance(v, ast.Call):
+        d = dotted(v.func) or ""
+        if d in ("torch.lt", "torch.le", "torch.less") and v.args and root_name(v.args[0]) == name:
+            return True
+        if isinstance(v.func, ast.Attribute) and v.func.attr in ("lt", "le", "less") and not d.startswith("torch.") and root_name(v.func.value) == name:
+            return True
+    if isinstance(v, ast.Compare) and len(v.ops) == 1 and isinstance(v.ops[0], (ast.Lt, ast.LtE)) and root_name(v.left) == name:
+        return True
+    return False
+
+
 def returned_names(fn: FunctionInfo) -> Tuple[List[ast.Return], Set[str]]:
     rets = [n for n in walk_body(fn) if isinstance(n, ast.Return) and n.value is not None]
     names: Set[str] = set()
@@ -97,10 +109,13 @@ def check_minres(idx: ProgramIndex, rep: Report):
     m = idx.modules.get(MINRES)
     if m is None or "minres" not in m.functions:
         raise AnalysisError(f"{MINRES}.minres not found")
-    fn = m.functions["minres"]
-    helper = next((f for f in m.functions.values() if f is not fn and "shifts" in f.params() and "solution" in f.params()), None)
-    if helper is None:
-        raise AnalysisError("the minres update helper (parameters solution, shifts, ...) was not found")
+    fn0 = m.functions["minres"]
+    # same-module helpers (the Givens / Lanczos update kernel, extracted normalisation or finalisation steps) are inlined:
+    # the rules see one body whether or not a maintainer has split the function
+    from ..inline import inline_helpers
+
+    fn, inlined = inline_helpers(idx, fn0)
+    rep.analysed["minres_inlined_helpers"] = inlined
     cfg = CFG(fn)
     loops = [n for n in cfg.nodes.values() if n.kind == "iter"]
     body = fn.body()
@@ -111,13 +126,27 @@ def check_minres(idx: ProgramIndex, rep: Report):
     loop = next(n for n in loops if n.ast is loop_ast)
     li = body.index(loop_ast)
     pre = dependence(fn, subtree_nodes(body[:li]))
-    inl = dependence(fn, subtree_nodes(loop_ast.body))
     post = dependence(fn, subtree_nodes(body[li + 1:]))
     rets, rnames = returned_names(fn)
     if len(rnames) != 1:
         raise AnalysisError(f"minres returns {sorted(rnames)}: expected a single solution variable")
     sol = next(iter(rnames))
-    F = fname(fn)
+    # roles, found from the code (only the public parameter names are taken as given)
+    RHSN = RZ = None
+    for st in body[:li]:
+        for x in ast.walk(st):
+            if isinstance(x, ast.Assign) and len(x.targets) == 1 and isinstance(x.targets[0], ast.Name):
+                v = x.value
+                if RHSN is None and any(isinstance(c, ast.Call) and ((isinstance(c.func, ast.Attribute) and c.func.attr == "norm" and root_name(c.func.value) == "rhs")
+                                                                     or (dotted(c.func) in ("torch.norm", "torch.linalg.norm", "torch.linalg.vector_norm") and c.args and root_name(c.args[0]) == "rhs"))
+                                        for c in ast.walk(v)):
+                    RHSN = x.targets[0].id
+                elif RHSN is not None and RZ is None and _is_lt_of(v, RHSN):
+                    RZ = x.targets[0].id
+    if RHSN is None or RZ is None:
+        raise AnalysisError(f"minres: roles rhs_norm / rhs_is_zero not found (rhs_norm={RHSN}, rhs_is_zero={RZ})")
+    rep.analysed["minres_roles"] = {"rhs_norm": RHSN, "rhs_is_zero": RZ, "solution": sol}
+    F = fname(fn0)
 
     # ---- M1 / M2
     rep.rule("C11.M1", "zero right-hand sides give a zero solution", floor=1)
@@ -125,15 +154,15 @@ def check_minres(idx: ProgramIndex, rep: Report):
     for r in rets:
         first = r.value.elts[0] if isinstance(r.value, ast.Tuple) else r.value
         dd = set().union(*[post.get(nm, set()) | {nm} for nm in reads(first)])
-        if "rhs_is_zero" in dd:
+        if RZ in dd:
             rep.ok("C11.M1", {"return": short(r, 60), "masked_by": "rhs_is_zero (after the loop)"})
         else:
             rep.bad("C11.M1", Finding(PROP, "C11.M1", F, norm(r) + " [rhs_is_zero]",
                                       "after the iteration the solution is not masked by rhs_is_zero: a zero right-hand-side "
                                       "column (normalised by the fill value 1, Lanczos start 0/0) returns garbage / NaN instead of 0",
                                       fn.loc(r)))
-        if "rhs_norm" in dd:
-            rep.ok("C11.M2", {"return": short(r, 60), "un-normalised_by": "rhs_norm"})
+        if RHSN in dd:
+            rep.ok("C11.M2", {"return": short(r, 60), "un-normalised_by": RHSN})
         else:
             rep.bad("C11.M2", Finding(PROP, "C11.M2", F, norm(r) + " [rhs_norm]",
                                       "the returned solution is not multiplied back by rhs_norm: the solve of the normalised "
@@ -144,7 +173,7 @@ def check_minres(idx: ProgramIndex, rep: Report):
     SELECTORS = ("masked_fill_", "masked_fill", "where", "masked_scatter_", "index_fill_", "nan_to_num")
     mask_nodes = set()
     for n in cfg.stmt_nodes():
-        if n.kind != "stmt" or _inside(loop_ast, n.ast) or not any(nm == sol and "rhs_is_zero" in rd for nm, rd in _defs_of(n.ast)):
+        if n.kind != "stmt" or _inside(loop_ast, n.ast) or not any(nm == sol and RZ in rd for nm, rd in _defs_of(n.ast)):
             continue
         sel = any(isinstance(x, ast.Call) and ((isinstance(x.func, ast.Attribute) and x.func.attr in SELECTORS) or
                                                 (dotted(x.func) or "").split(".")[-1] in SELECTORS) for x in ast.walk(n.ast)) \
@@ -164,8 +193,8 @@ def check_minres(idx: ProgramIndex, rep: Report):
                                       "there is a path from the iteration to a return that skips the rhs_is_zero mask", fn.loc(loop_ast)))
         else:
             rep.ok("C11.M1", {"mask_on_every_path_from_loop_to_return": True})
-    if "rhs_norm" in pre.get("rhs", set()) and "rhs_is_zero" in pre.get("rhs_norm", set()):
-        rep.ok("C11.M2", {"rhs_normalised_by": "rhs_norm", "zero_norm_filled": True})
+    if RHSN in pre.get("rhs", set()) and RZ in pre.get(RHSN, set()):
+        rep.ok("C11.M2", {"rhs_normalised_by": RHSN, "zero_norm_filled": True})
     else:
         rep.bad("C11.M2", Finding(PROP, "C11.M2", F, "rhs not normalised",
                                   "before the iteration rhs is not divided by its (zero-filled) norm", fn.loc()))
@@ -179,7 +208,17 @@ def check_minres(idx: ProgramIndex, rep: Report):
         for c in squeeze_calls(node.ast, sol, 0):
             n_sq0 += 1
             ctl = controlling(cfg, node.id)
-            good = [t for t, pol in ctl if "shifts" in reads(t.ast) and re.search(r"numel|size|shape|len|dim", norm(t.ast))]
+
+            def meaning(t_ast: ast.AST) -> ast.AST:
+                """A test that is a plain flag stands for the expression the flag was (once) assigned."""
+                if isinstance(t_ast, ast.Name):
+                    defs = [x.value for x in walk_body(fn) if isinstance(x, ast.Assign) and len(x.targets) == 1
+                            and isinstance(x.targets[0], ast.Name) and x.targets[0].id == t_ast.id]
+                    if len(defs) == 1:
+                        return defs[0]
+                return t_ast
+
+            good = [t for t, pol in ctl if "shifts" in reads(meaning(t.ast)) and re.search(r"numel|size|shape|len|dim", norm(meaning(t.ast)))]
             if good:
                 rep.ok("C11.M3", {"squeeze": short(c, 50), "controlled_by": good[0].label[:60]})
             else:
@@ -284,41 +323,39 @@ def check_minres(idx: ProgramIndex, rep: Report):
                                       "right-hand sides are confused", fn.loc(S.ast)))
 
     # ---- M5
-    rep.rule("C11.M5", "shifts and the multiplicative value enter the recurrence", floor=3)
-    dh = dependence(helper)
-    for var, src in (("alpha_shifted_curr", "shifts"), ("diag_term", "alpha_shifted_curr"), ("solution", "search_update"),
-                     ("search_curr", "diag_term"), ("search_update", "search_curr")):
-        direct = set()
-        for n in walk_body(helper):
-            for nm, rd in statement_defs(n):
-                if nm == var:
-                    direct |= rd
-        if src in direct:
-            rep.ok("C11.M5", {"helper": fname(helper), "variable": var, "directly_uses": src})
+    rep.rule("C11.M5", "shifts and the multiplicative value enter the recurrence", floor=2)
+    from ..deps import forward_dependence, value_reads
+
+    it = forward_dependence(loop_ast.body, reads=value_reads)  # one iteration, in statement order, value dependence only
+    sol_deps = it.get(sol, set())
+    for par, what in (("shifts", "the shift does not reach the solution update: every shift returns the same solve"),
+                      ("value", "the matrix product is not scaled by `value`: contour quadrature (value=-1) solves (K + sI) "
+                                "instead of (-K + sI)")):
+        if par not in fn.params():
+            continue
+        if par in sol_deps:
+            rep.ok("C11.M5", {"within_one_iteration": f"{sol} depends on {par}"})
         else:
-            rep.bad("C11.M5", Finding(PROP, "C11.M5", fname(helper), f"{var} does not use {src}",
-                                      f"{fname(helper)}: `{var}` is no longer computed from `{src}`: the shift does not reach "
-                                      "the solution update (every shift returns the same solve)", helper.loc()))
-    # value scaling inside the loop: the product that feeds alpha depends on `value`
-    if "value" in fn.params():
-        if "value" in inl.get("alpha_curr", set()) and "value" in inl.get("prod", set()):
-            rep.ok("C11.M5", {"loop": "alpha_curr / prod depend on value"})
+            rep.bad("C11.M5", Finding(PROP, "C11.M5", F, f"solution update independent of {par}",
+                                      f"inside the iteration the update of `{sol}` does not depend on `{par}`: {what}", fn0.loc(loop_ast)))
+    # calls of a same-module kernel with the caller's buffers: a PERMUTATION of the parameter names is a swap
+    for c_ in [n for n in ast.walk(fn0.node) if isinstance(n, ast.Call) and isinstance(n.func, ast.Name) and n.func.id in m.functions
+               and m.functions[n.func.id] is not fn0]:
+        callee = m.functions[c_.func.id]
+        argn = [a.id if isinstance(a, ast.Name) else None for a in c_.args]
+        pars = callee.params()[:len(argn)]
+        if None in argn or len(argn) < 3:
+            continue
+        if argn == pars:
+            rep.ok("C11.M5", {"call": callee.name, "arguments_match_parameters": len(argn)})
+        elif sorted(argn) == sorted(pars):
+            mism = [(a, p_) for a, p_ in zip(argn, pars) if a != p_]
+            rep.bad("C11.M5", Finding(PROP, "C11.M5", F, f"{callee.name} call: argument/parameter mismatch {mism[:2]}",
+                                      f"the call of {callee.name} passes the same buffers as the parameters are named, but in another "
+                                      f"order {mism[:3]} (argument, parameter): the kernel reads / writes the rotating buffers by role",
+                                      fn0.loc(c_)))
         else:
-            rep.bad("C11.M5", Finding(PROP, "C11.M5", F, "value not applied in the loop",
-                                      "inside the iteration the matrix product is not scaled by `value`: contour quadrature "
-                                      "(value=-1) solves (K + sI) instead of (-K + sI)", fn.loc(loop_ast)))
-    # the helper is called with the same argument names as its parameters, in order
-    calls = [n for n in ast.walk(loop_ast) if isinstance(n, ast.Call) and isinstance(n.func, ast.Name) and n.func.id == helper.name]
-    if len(calls) != 1:
-        raise AnalysisError(f"expected one call of {helper.name} in the minres loop, found {len(calls)}")
-    argn = [a.id if isinstance(a, ast.Name) else None for a in calls[0].args]
-    if argn == helper.params()[:len(argn)] and len(argn) == len(helper.params()):
-        rep.ok("C11.M5", {"call": helper.name, "arguments_match_parameters": len(argn)})
-    else:
-        mism = [(a, p) for a, p in zip(argn, helper.params()) if a != p]
-        rep.bad("C11.M5", Finding(PROP, "C11.M5", F, f"{helper.name} call: argument/parameter mismatch {mism[:2]}",
-                                  f"the call of {helper.name} passes {mism[:3]} (argument, parameter): the rotating buffers are "
-                                  "named by role and the helper reads / writes them by role", fn.loc(calls[0])))
+            rep.note(f"{callee.name} is called with differently named buffers; positional roles not decided")
 
     # ---- M6
     rep.rule("C11.M6", "buffer rotations bind distinct buffers and shift roles prev2 <- prev1 <- curr", floor=5)
@@ -476,6 +513,11 @@ def check_ciq(idx: ProgramIndex, rep: Report):
                             other = x.left
                         elif isinstance(x.left, ast.Name) and x.left.id in wnames:
                             other = x.right
+                    elif isinstance(x, ast.Call) and dotted(x.func) in ("torch.mul", "torch.multiply") and len(x.args) >= 2:
+                        if isinstance(x.args[1], ast.Name) and x.args[1].id in wnames:
+                            other = x.args[0]
+                        elif isinstance(x.args[0], ast.Name) and x.args[0].id in wnames:
+                            other = x.args[1]
                     elif (isinstance(x, ast.Call) and isinstance(x.func, ast.Attribute) and x.func.attr in ("mul", "mul_")
                           and x.args and isinstance(x.args[0], ast.Name) and x.args[0].id in wnames):
                         other = x.func.value
